@@ -69,6 +69,8 @@ type c07 struct {
 	ioArmed  bool              // I/O errors may be injected (inside flush operations)
 	crashFS  float64
 	crashY   float64
+	starting bool    // the log side of the node is starting (crash_start_pm applies)
+	crashS   float64 // process death per function entry while starting
 }
 
 const c07Leader = models.NodeID(1)
@@ -145,6 +147,12 @@ func genC07(rng *rand.Rand, tier string) *core.Plan {
 	p.Cfg["maporder"] = rng.Intn(2) // tape-chosen iteration order of Go maps in the code under test
 	core.GenZone(p, rng.Intn)       // the node's local time zone
 	p.Cfg["hist"] = rng.Intn(2)     // every third row also carries a histogram
+	if rng.Intn(4) == 0 {
+		// the process may also die while it starts: while the log manager recovers, the partition of the family is
+		// created or reopened (queue, consumer group of the local replicator) and the replicator is built -
+		// per 1000 function entries of that phase
+		p.Cfg["crash_start_pm"] = []int{1, 2, 6}[rng.Intn(3)]
+	}
 	return p
 }
 
@@ -200,6 +208,8 @@ func (h *c07) start(first bool) bool {
 	h.cancel = cancel
 	wcfg := config.WAL{Dir: filepath.Join(c.Dir, "wal"), PageSize: ltoml.Size(1 << 20), RemoveTaskInterval: ltoml.Duration(time.Hour)}
 	h.walMgr = replica.NewWriteAheadLogManager(ctx, wcfg, c07Leader, n.Engine, nil, nil)
+	h.starting = true
+	defer func() { h.starting = false }()
 	if err := h.walMgr.Recovery(); err != nil {
 		c.Violate("C07/reopen-failed", "log recovery: %v", err)
 		return false
@@ -215,6 +225,7 @@ func (h *c07) start(first bool) bool {
 	}
 	h.part = p
 	h.part2 = nil
+	h.starting = false
 	if c.Plan.C("other_leader", 0) == 1 {
 		// as the replica handler does when the stream of that leader opens
 		p2, err := h.walMgr.GetOrCreateLog(h.db).GetOrCreatePartition(0, Jan1, c07Leader2)
@@ -440,7 +451,8 @@ func (h *c07) crashNow(what string) {
 func runC07(c *core.RunCtx) {
 	sim := c.Sim
 	h := &c07{c: c, sim: sim, db: "w" + NewTag(c), nser: c.Plan.C("nseries", 3), hist: c.Plan.C("hist", 0) == 1, garbage: map[int64]bool{},
-		crashFS: float64(c.Plan.C("crash_fs_pm", 0)) / 1000, crashY: float64(c.Plan.C("crash_y_pm10", 0)) / 10000}
+		crashFS: float64(c.Plan.C("crash_fs_pm", 0)) / 1000, crashY: float64(c.Plan.C("crash_y_pm10", 0)) / 10000,
+		crashS: float64(c.Plan.C("crash_start_pm", 0)) / 1000}
 	pre := func(op, path string) {
 		if !h.armed || h.dead || sim.CurInc() != h.inc {
 			return
@@ -471,6 +483,12 @@ func runC07(c *core.RunCtx) {
 		})
 	}
 	sim.OnYield = func(label string) {
+		if h.starting && !h.dead && h.crashS > 0 && sim.CurInc() == h.inc {
+			if sim.Tape.Chance(h.crashS) {
+				h.crashNow("start")
+			}
+			return
+		}
 		if !h.armed || h.dead || h.crashY == 0 || sim.CurInc() != h.inc {
 			return
 		}
